@@ -54,6 +54,7 @@ type Router struct {
 	sock          knxnet.Socket
 	config        RouterConfig
 	inbound       chan cemi.Message
+	backlog       inboundQueue
 	sendMu        sync.Mutex
 	retainer      *list.List
 	postSendPause time.Duration
@@ -87,21 +88,10 @@ func (router *Router) resendLost(count uint16) {
 	go router.sendMultiple(messages)
 }
 
-// pushInbound sends the message through the inbound channel. If the sending blocks, it will launch
-// a goroutine which will do the sending.
+// pushInbound sends the message through the inbound channel. If the sending blocks, the message
+// is queued and delivered in order by a goroutine.
 func (router *Router) pushInbound(msg cemi.Message) {
-	select {
-	case router.inbound <- msg:
-
-	default:
-		go func() {
-			// Since this goroutine decouples from the server goroutine, it might try to send when
-			// the server closed the inbound channel. Sending to a closed channel will panic. But we
-			// don't care, because cool guys don't look at explosions.
-			defer func() { recover() }()
-			router.inbound <- msg
-		}()
-	}
+	router.backlog.push(router.inbound, msg)
 }
 
 const maxWaitTime = 50 * time.Millisecond
